@@ -138,11 +138,9 @@ def okAlives (c : CaseObs) : Bool :=
   subMulti (a.take e.length) e
   && (List.range (a.length - e.length)).all (fun i => a[i]? == a[i + e.length]?)
   && c.alives.all (okNotify c ntsAlive 1)
-  && (match c.alives with
-      | m0 :: m1 :: r =>
-        m0.time < m1.time
-        && ((m1 :: r).zip r).all (fun p => p.2.time - p.1.time == m1.time - m0.time)
-      | _ => true)
+  && (let ts := c.alives.map (·.time)
+      (List.range (ts.length - 1)).all fun i =>
+        ts.getD i 0 < ts.getD (i + 1) 0 && ts.getD (i + 1) 0 - ts.getD i 0 == ts.getD 1 0 - ts.getD 0 0)
   && (match c.stopTime with
       | some ts => c.alives.all fun m => m.time ≤ ts
       | none => true)
@@ -162,9 +160,9 @@ def ok (c : CaseObs) : Bool :=
 
 def baseOf (s : Str) : Option Str := (typeParts (lower s)).map (·.1)
 
-def wfUdn (u : Str) : Bool := startsWith (lower u) "uuid:".toList && !isInfix sep u
+def wfUdn (u : Str) : Bool := startsWith (lower u) "uuid:".toList && noSep u
 
-/-- UDNs are `uuid:` names without `::`; every device and service type is `base:version`; no UDN,
+/-- UDNs are `uuid:` names without `::` that do not end in `:`; every device and service type is `base:version`; no UDN,
     read as a type, shares its base with a type; device types and service types have different bases -/
 def wfTree (t : DevTree) : Bool :=
   let devs := allDevices t
